@@ -73,6 +73,10 @@ CHECKS["C20"] = dict(category="exploration",
    technique="process-instance comparison: every trace and every transpiler output is produced in 5 process instances (ASLR on twice, ASLR off, cache files cold and warm); traces must equal the Lean model's (a function of chart and events), emitted text must be byte-identical",
    text="For interpretation the technique applies through the tie: the Lean engine models are functions, and I = M in every process instance means the interpreter's trace does not depend on the process. For the transpilers there is no Lean model of the emitted bytes (C04/C06/C18 model what the emitted code computes, not its text), so byte-identity is decided by comparing separate processes: exploration, said as such.",
    design_ref="6 / C20", note="Trusted: the emit/trace harness, setarch -R, the kernel's address-space randomisation as the source of different layouts.")
+CHECKS["C18"] = dict(category="translation_validation",
+   technique="translator: the combinational equations are parsed out of the VHDL emitted for each document on every run and given meaning by Model.BoolEq; the compiled Lean specification Spec.TStep (SCXML micro-step over the transpilers' conflict relation, Spec.Legal for the configurations) enumerates the property's whole quantifier per document and compares state_next_*",
+   text="Per document the property's quantifier is finite (legal configurations x events and the spontaneous step x 2^k condition valuations) and is decided completely - by exhaustive evaluation in compiled Lean code, which is a decision procedure for that document but not a kernel-checked proof; no theorem quantifies over all documents (that would need a Lean model of the equation generator itself, planned). Spec.TStep is tied to the interpreter by comparing the configurations it visits on event histories with the compiled interpreter's. Hence translation validation, not proof.",
+   design_ref="6 / C18", note="Trusted: translate/vhdl_eqs.py (parser of the emitted assignments, mapping of event signals to event names by trie order), Model.BoolEq's reading of VHDL concurrent assignments, Spec.TStep/Spec.Legal. No VHDL simulator is installed.")
 PENDING = {}   # id -> reason (filled while the framework is being built)
 
 def main():
